@@ -40,6 +40,10 @@ CASES = [
     ('if then with an array of the wrong size is reported', '{ if (true) then [{1}] } except__ { }; 7', '7'),
     ('exitWith leaves the scope with the value of its block', 'call { if (true) exitWith { "out" }; "in" }', 'out'),
     ('exitWith with a false condition goes on', 'call { if (false) exitWith { "out" }; "in" }', 'in'),
+    ('false && {code} does not evaluate the code', 'private _r = 0; private _b = false && { _r = 1; true }; [_b, _r]', '[false,0]'),
+    ('true && {code} evaluates the code', 'private _r = 0; private _b = true && { _r = 1; false }; [_b, _r]', '[false,1]'),
+    ('true || {code} does not evaluate the code', 'private _r = 0; private _b = true || { _r = 1; false }; [_b, _r]', '[true,0]'),
+    ('false || {code} evaluates the code', 'private _r = 0; private _b = false || { _r = 1; true }; [_b, _r]', '[true,1]'),
 ]
 def search(sqfvm):
     for (name, code, want) in CASES:
